@@ -1,5 +1,5 @@
 (* C12 — switch-label source routes.  Property theorems only; proofs in SwitchLabelProofs.v. *)
-From Verif Require Import Prelude SwitchLabel SwitchLabelProofs Gen.
+From Verif Require Import Prelude SwitchLabel SwitchLabelProofs Gen Translated.
 
 (* A valid path: forward labels F = f_0..f_{n-2} and return labels R = r_1..r_{n-1}, all in
    1..65535 (f_{n-1} = 0 = r_0 are added by mk_hops), n >= 2 hops, any n that fits.
@@ -69,3 +69,8 @@ Example C12_nonvacuous :
   calc_size (mk_hops F R) = Ok 6%nat /\
   build_blocks (mk_hops F R) = Ok ([67; 1; 123; 15; 0; 0], [3; 3; 128; 1; 255; 127]).
 Proof. cbv zeta. repeat split; try discriminate; vm_compute; reflexivity. Qed.
+
+(* the translated source of SwitchLabel.EncodedSize (regenerated every run) is the model's esize *)
+Theorem C12_source_encoded_size_is_model : forall x, Gen.go_SwitchLabel_EncodedSize x = Z.of_nat (esize x).
+Proof. exact go_encoded_size_is_model. Qed.
+Print Assumptions C12_source_encoded_size_is_model.
